@@ -22,7 +22,11 @@ class awaiter;
  * lockfree stack. Every awaiter has member variable _next which points to
  * next awaiter in the collector.
  */
+#ifdef COCLS_VERIF
+using awaiter_collector = cocls_verif::atomic<awaiter *>;
+#else
 using awaiter_collector = std::atomic<awaiter *>;
+#endif
 
 
 ///Helps to store coroutine handle to be resumed.
@@ -255,7 +259,11 @@ public:
 
 class sync_awaiter: public awaiter {
 public:
+#ifdef COCLS_VERIF
+    cocls_verif::atomic<bool> flag = {false};
+#else
     std::atomic<bool> flag = {false};
+#endif
     sync_awaiter() {
         set_resume_fn(&sync_awaiter::wakeup);
     }
